@@ -545,6 +545,7 @@ func c04Tune(g *gen) {
 
 func init() {
 	runners["C04"] = func(c *ctx) {
+		c.stateProj = "sp_balances_flags" // the part of the state this property's theorems speak about
 		u := newUniverse()
 		proj := tkProj(false, true)
 		c.rep.Rule = "(1) one scenario family per call site of checkFrozeAndPause (addToESDTBalance; saveESDTNFTToken incl. its second, full-key lookup; esdtNFTTransfer.addNFTToDestination; esdtNFTMultiTransfer.addNFTToDestination) x function x sender / destination side x same / cross shard (destination side through delivery of the real message) x {account frozen, token paused, full key paused}, each on four clones of one world: never blocked (control), blocked, flag set and cleared again (must decide and move balances exactly like the control), blocked with ReturnCallAfterError or refund into a frozen+paused sender (exemptions); on two worlds (system-account address living on shard 0 / shard 1); wipe / unfreeze / unpause by the system contract and by users; repeated and alternating flag operations (freeze;freeze / pause;pause / unfreeze;unfreeze / freeze;unfreeze;freeze / freeze;wipe;freeze / ... on the sender, a same-shard and a cross-shard destination, fungible key and SFT key) each followed by transfers in both directions, mint, add-quantity, NFT and multi transfers and deliveries; the frozen holding of the system-account address itself followed by ESDTPause / ESDTUnPause (known finding F8). extra.site_hits counts, per site, the scenarios in which the control was accepted and the blocked call was refused with the frozen / paused error. " +
